@@ -97,6 +97,11 @@ func (t *Dense) SafeT(axes ...int) (retVal *Dense, err error) {
 	retVal.oe = t.oe
 	retVal.AP = transform
 	t.AP.CloneTo(&retVal.old)
+	if !t.old.IsZero() {
+		// t itself is lazily transposed and its data is copied unmoved: the pattern that UT() puts back
+		// does not visit the storage in order
+		retVal.old.o = MakeDataOrder(retVal.old.o, NonContiguous)
+	}
 	retVal.transposeWith = axes
 
 	return
